@@ -12,9 +12,12 @@ package PKGNAME
 //
 // Harness discipline (synctest): a goroutine blocked on a sync.Mutex is not durably blocked, so the harness must
 // never let a mutex be held across a timer wait while another goroutine contends for it. Client.close() holds
-// connectMu while its unsubscribe loop waits (<= 5 s) for an in-flight subscribe of that connection; with at most ONE
-// unfinished subscribe attempt per connection (rule R1 below) close() waits at most once and every contender is
-// only transiently blocked.
+// connectMu while its unsubscribe loop waits (<= 5 s) for an in-flight subscribe of that connection, and any reply
+// written to a closed client spawns another close() that blocks on connectMu. Therefore parking is close-aware:
+// the moment a connection's transport is closed everything of that connection that the harness parked is released
+// (and nothing of it parks any more), so close() never waits for long. The one exception is the "quiet close": a
+// close issued while exactly one subscribe attempt of an otherwise idle connection is parked freezes the
+// connection (no further operations on it), which lets close() run into its own 5 s wait-gate timeout safely.
 
 import (
 	"fmt"
@@ -56,6 +59,7 @@ type vfC04Step struct {
 	Idx      int
 	AdvMs    int
 	NoSettle bool
+	Quiet    bool // close ops: freeze the connection (see "quiet close" in vfC04Run)
 }
 
 type vfC04Case struct {
@@ -107,9 +111,9 @@ func (s vfC04Step) String() string {
 	case vfC04NodeUnsub:
 		return fmt.Sprintf("Node.Unsubscribe(u%d c%d%s)%s", s.User, s.Ch, g, ns)
 	case vfC04Disconnect:
-		return fmt.Sprintf("Disconnect(k%d)%s", s.Conn, ns)
+		return fmt.Sprintf("Disconnect(k%d quiet=%v)%s", s.Conn, s.Quiet, ns)
 	case vfC04TransportClose:
-		return fmt.Sprintf("transportClose(k%d)%s", s.Conn, ns)
+		return fmt.Sprintf("transportClose(k%d quiet=%v)%s", s.Conn, s.Quiet, ns)
 	case vfC04Advance:
 		return fmt.Sprintf("adv(%dms)%s", s.AdvMs, ns)
 	case vfC04Release:
@@ -176,18 +180,20 @@ func vfC04Gen(rt *rapid.T) vfC04Case {
 		s.NoSettle = rapid.IntRange(0, 3).Draw(rt, "nosettle") == 0
 		switch s.Kind {
 		case vfC04SubCmd:
-			s.Mode = rapid.SampledFrom([]int{0, 0, 0, 1, 1, 1, 1, 1, 2, 3, 3, 4, 5}).Draw(rt, "mode")
+			s.Mode = rapid.SampledFrom([]int{0, 0, 0, 0, 1, 1, 1, 1, 1, 1, 1, 2, 2, 3, 3, 3, 4, 4, 5}).Draw(rt, "mode")
 			s.GateH = rapid.IntRange(0, 3).Draw(rt, "gateH") == 0
 			s.GateP = rapid.IntRange(0, 3).Draw(rt, "gateP") == 0
-			s.FailH = rapid.SampledFrom([]int{0, 0, 0, 0, 0, 0, 0, 1, 2}).Draw(rt, "failH")
-			s.FailP = rapid.IntRange(0, 9).Draw(rt, "failP") == 0
+			s.FailH = rapid.SampledFrom([]int{0, 0, 0, 0, 0, 0, 0, 0, 0, 0, 0, 0, 0, 0, 1, 2}).Draw(rt, "failH")
+			s.FailP = rapid.IntRange(0, 19).Draw(rt, "failP") == 0
 		case vfC04ClientSub, vfC04NodeSub:
 			s.GateH = rapid.IntRange(0, 2).Draw(rt, "gateH") == 0
 			s.GateP = rapid.IntRange(0, 2).Draw(rt, "gateP") == 0
-			s.FailH = rapid.SampledFrom([]int{0, 0, 0, 0, 0, 0, 0, 1, 2}).Draw(rt, "failH")
-			s.FailP = rapid.IntRange(0, 9).Draw(rt, "failP") == 0
+			s.FailH = rapid.SampledFrom([]int{0, 0, 0, 0, 0, 0, 0, 0, 0, 0, 0, 0, 0, 0, 1, 2}).Draw(rt, "failH")
+			s.FailP = rapid.IntRange(0, 19).Draw(rt, "failP") == 0
 		case vfC04UnsubCmd, vfC04ClientUnsub, vfC04NodeUnsub:
 			s.GateR = rapid.IntRange(0, 2).Draw(rt, "gateR") == 0
+		case vfC04Disconnect, vfC04TransportClose:
+			s.Quiet = rapid.Bool().Draw(rt, "quiet")
 		case vfC04Advance:
 			s.AdvMs = rapid.SampledFrom([]int{100, 1000, 2000, 5000, 5000, 6000}).Draw(rt, "adv")
 		case vfC04Release:
@@ -215,6 +221,7 @@ func (o *vfC04Out) label(l string) {
 	o.labels[l] = true
 }
 
+
 // vfC04Att is one started operation (attempt); it is unfinished until its goroutine returned and, for a subscribe
 // command whose callback was deferred, until that callback returned.
 type vfC04Att struct {
@@ -227,27 +234,36 @@ type vfC04Att struct {
 	pending int
 }
 
+// vfC04Parked is something the harness holds back: a subscribe callback (cb != nil) or a goroutine parked at a gate.
 type vfC04Parked struct {
-	att   *vfC04Att
-	conn  int
+	seq   int
+	kind  string // "cb", "p+", "h", "p-"
+	conns []int  // connections it is attributed to (released when any of them closes)
 	ch    int
+	// callback
+	att   *vfC04Att
 	cb    SubscribeCallback
 	reply SubscribeReply
 	err   error
+	// gate
+	c chan struct{}
 }
 
 type vfC04Rt struct {
 	mu         sync.Mutex
 	nch        int
 	opsBusy    []int
-	subBusy    []int
-	subCh      []int
+	subBusy    [][]int // unfinished subscribe attempts per (conn, ch)
 	pairBusy   [][]int
-	cbParked   [][]int // parked subscribe callbacks per (conn, ch)
 	atts       []*vfC04Att
 	parked     []*vfC04Parked
+	seq        int
+	armed      map[string]int
+	auto       []bool // transport closed: nothing of this connection parks any more
+	frozen     []bool // quiet close in progress / done: no further operations, parked attempt is kept
 	finalizing bool
 	overlaps   int
+	autoRel    int
 }
 
 func (a *vfC04Att) done() {
@@ -261,7 +277,7 @@ func (a *vfC04Att) done() {
 	for _, c := range a.conns {
 		r.opsBusy[c]--
 		if a.isSub {
-			r.subBusy[c]--
+			r.subBusy[c][a.ch]--
 		}
 		if a.ch >= 0 {
 			r.pairBusy[c][a.ch]--
@@ -282,8 +298,7 @@ func (r *vfC04Rt) start(conns []int, ch int, isSub bool, mode int, f func(a *vfC
 	for _, c := range conns {
 		r.opsBusy[c]++
 		if isSub {
-			r.subBusy[c]++
-			r.subCh[c] = ch
+			r.subBusy[c][ch]++
 		}
 		if ch >= 0 {
 			if r.pairBusy[c][ch] > 0 {
@@ -307,13 +322,118 @@ func (r *vfC04Rt) start(conns []int, ch int, isSub bool, mode int, f func(a *vfC
 	return a
 }
 
-// vfC04Presence parks AddPresence / RemovePresence at named gates. RemovePresence is never parked for a closing
-// client: close() calls it with connectMu and presenceMu held.
+func (r *vfC04Rt) arm(key string) {
+	r.mu.Lock()
+	r.armed[key]++
+	r.mu.Unlock()
+}
+
+// pass parks the calling goroutine when the gate is armed, unless one of the connections it belongs to has its
+// transport closed already. conn < 0: the caller is a history read; it is attributed to every connection with an
+// unfinished subscribe attempt on that channel.
+func (r *vfC04Rt) pass(kind string, conn int, ch int, key string) {
+	r.mu.Lock()
+	if r.armed[key] <= 0 || r.finalizing {
+		r.mu.Unlock()
+		return
+	}
+	var conns []int
+	if conn >= 0 {
+		conns = []int{conn}
+	} else {
+		for c := range r.subBusy {
+			if r.subBusy[c][ch] > 0 {
+				conns = append(conns, c)
+			}
+		}
+	}
+	if len(conns) == 0 {
+		r.mu.Unlock()
+		return
+	}
+	for _, c := range conns {
+		if r.auto[c] {
+			r.mu.Unlock()
+			return
+		}
+	}
+	r.armed[key]--
+	r.seq++
+	p := &vfC04Parked{seq: r.seq, kind: kind, conns: conns, ch: ch, c: make(chan struct{})}
+	r.parked = append(r.parked, p)
+	r.mu.Unlock()
+	<-p.c
+}
+
+// releaseLocked lets p continue (r.mu held; p already removed from r.parked).
+func (r *vfC04Rt) releaseLocked(p *vfC04Parked) {
+	if p.cb == nil {
+		close(p.c)
+		return
+	}
+	go func() {
+		defer p.att.done()
+		p.cb(p.reply, p.err)
+	}()
+}
+
+// releaseAll releases everything attributed to conn (conn < 0: everything).
+func (r *vfC04Rt) releaseAllLocked(conn int) int {
+	var keep []*vfC04Parked
+	n := 0
+	for _, p := range r.parked {
+		hit := conn < 0
+		for _, c := range p.conns {
+			if c == conn {
+				hit = true
+			}
+		}
+		if hit {
+			r.releaseLocked(p)
+			n++
+		} else {
+			keep = append(keep, p)
+		}
+	}
+	r.parked = keep
+	return n
+}
+
+func (r *vfC04Rt) parkedFor(conn, ch int, kinds ...string) bool {
+	r.mu.Lock()
+	defer r.mu.Unlock()
+	for _, p := range r.parked {
+		if p.ch != ch {
+			continue
+		}
+		okKind := false
+		for _, k := range kinds {
+			if p.kind == k {
+				okKind = true
+			}
+		}
+		if !okKind {
+			continue
+		}
+		for _, c := range p.conns {
+			if c == conn {
+				return true
+			}
+		}
+	}
+	return false
+}
+
+// vfC04Presence parks AddPresence / RemovePresence (never for a closing client: close() calls RemovePresence with
+// connectMu and presenceMu held) and injects AddPresence failures.
 type vfC04Presence struct {
-	inner PresenceManager
-	w     *vfWorld
-	mu    sync.Mutex
-	fail  map[string]int // "conn:ch" -> number of AddPresence calls to fail
+	inner   PresenceManager
+	w       *vfWorld
+	r       *vfC04Rt
+	connIdx map[string]int
+	chIdx   map[string]int
+	mu      sync.Mutex
+	fail    map[string]int // "conn:ch" -> number of AddPresence calls to fail
 }
 
 func (p *vfC04Presence) failNext(key string) {
@@ -326,8 +446,8 @@ func (p *vfC04Presence) Presence(ch string) (map[string]*ClientInfo, error) { re
 func (p *vfC04Presence) PresenceStats(ch string) (PresenceStats, error)      { return p.inner.PresenceStats(ch) }
 func (p *vfC04Presence) AddPresence(ch string, clientID string, info *ClientInfo) error {
 	if c := p.w.connByID(clientID); c != nil {
-		if !c.Client.closing.Load() {
-			p.w.Gates.Pass("p+:" + c.Name + ":" + ch)
+		if ci, ok := p.chIdx[ch]; ok && !c.Client.closing.Load() {
+			p.r.pass("p+", p.connIdx[c.Name], ci, "p+:"+c.Name+":"+ch)
 		}
 		p.mu.Lock()
 		f := p.fail[c.Name+":"+ch] > 0
@@ -342,8 +462,10 @@ func (p *vfC04Presence) AddPresence(ch string, clientID string, info *ClientInfo
 	return p.inner.AddPresence(ch, clientID, info)
 }
 func (p *vfC04Presence) RemovePresence(ch string, clientID string, userID string) error {
-	if c := p.w.connByID(clientID); c != nil && !c.Client.closing.Load() {
-		p.w.Gates.Pass("p-:" + c.Name + ":" + ch)
+	if c := p.w.connByID(clientID); c != nil {
+		if ci, ok := p.chIdx[ch]; ok && !c.Client.closing.Load() {
+			p.r.pass("p-", p.connIdx[c.Name], ci, "p-:"+c.Name+":"+ch)
+		}
 	}
 	return p.inner.RemovePresence(ch, clientID, userID)
 }
@@ -356,10 +478,6 @@ func vfC04Run(t *testing.T, cs vfC04Case, out *vfC04Out, isKnown func(string) bo
 			return "infra: " + err.Error()
 		}
 		defer w.Close()
-		pm := &vfC04Presence{inner: w.node.presenceManager, w: w, fail: map[string]int{}}
-		w.node.SetPresenceManager(pm)
-		var hmu sync.Mutex
-		failH := map[string]int{}
 
 		chName := func(ch int) string { return fmt.Sprintf("c%d", ch) }
 		userName := func(u int) string { return fmt.Sprintf("u%d", u) }
@@ -370,22 +488,32 @@ func vfC04Run(t *testing.T, cs vfC04Case, out *vfC04Out, isKnown func(string) bo
 		for ch := 0; ch < cs.NChans; ch++ {
 			chIndex[chName(ch)] = ch
 		}
+		connIdx := map[string]int{}
 
-		r := &vfC04Rt{nch: cs.NChans}
+		r := &vfC04Rt{nch: cs.NChans, armed: map[string]int{}}
 		for i := 0; i < cs.NConns; i++ {
 			r.opsBusy = append(r.opsBusy, 0)
-			r.subBusy = append(r.subBusy, 0)
-			r.subCh = append(r.subCh, -1)
+			r.subBusy = append(r.subBusy, make([]int, cs.NChans))
 			r.pairBusy = append(r.pairBusy, make([]int, cs.NChans))
-			r.cbParked = append(r.cbParked, make([]int, cs.NChans))
+			r.auto = append(r.auto, false)
+			r.frozen = append(r.frozen, false)
+			connIdx[fmt.Sprintf("k%d", i)] = i
 		}
+		pm := &vfC04Presence{inner: w.node.presenceManager, w: w, r: r, connIdx: connIdx, chIdx: chIndex, fail: map[string]int{}}
+		w.node.SetPresenceManager(pm)
+		var hmu sync.Mutex
+		failH := map[string]int{}
 
 		w.broker.Hook = func(op, phase, hch string) error {
 			if op != "history" {
 				return nil
 			}
+			ci, ok := chIndex[hch]
+			if !ok {
+				return nil
+			}
 			if phase == "after" {
-				w.Gates.Pass("h:" + hch)
+				r.pass("h", -1, ci, "h:"+hch)
 				return nil
 			}
 			hmu.Lock()
@@ -404,7 +532,6 @@ func vfC04Run(t *testing.T, cs vfC04Case, out *vfC04Out, isKnown func(string) bo
 		}
 
 		conns := make([]*vfConn, cs.NConns)
-		connIdx := map[string]int{}
 		w.Connecting = func(c *vfConn, e ConnectEvent) (ConnectReply, error) {
 			rep := ConnectReply{Credentials: &Credentials{UserID: c.User}}
 			i := connIdx[c.Name]
@@ -422,6 +549,7 @@ func vfC04Run(t *testing.T, cs vfC04Case, out *vfC04Out, isKnown func(string) bo
 			ch, okCh := chIndex[e.Channel]
 			var ai int
 			_, _ = fmt.Sscanf(string(e.Data), `{"a":%d}`, &ai)
+			ci := connIdx[c.Name]
 			r.mu.Lock()
 			if !okCh || ai < 0 || ai >= len(r.atts) {
 				r.mu.Unlock()
@@ -430,8 +558,8 @@ func vfC04Run(t *testing.T, cs vfC04Case, out *vfC04Out, isKnown func(string) bo
 			}
 			a := r.atts[ai]
 			mode := a.mode
-			if r.finalizing && (mode == 1 || mode == 3) {
-				mode-- // nothing may park any more: answer synchronously (ok / error)
+			if (r.finalizing || r.auto[ci]) && (mode == 1 || mode == 3) {
+				mode-- // nothing of this connection may park any more: answer synchronously (ok / error)
 			}
 			reply := SubscribeReply{Options: optsFor(ch)}
 			switch mode {
@@ -441,8 +569,8 @@ func vfC04Run(t *testing.T, cs vfC04Case, out *vfC04Out, isKnown func(string) bo
 					perr = ErrorPermissionDenied
 				}
 				a.pending++
-				r.cbParked[connIdx[c.Name]][ch]++
-				r.parked = append(r.parked, &vfC04Parked{att: a, conn: connIdx[c.Name], ch: ch, cb: cb, reply: reply, err: perr})
+				r.seq++
+				r.parked = append(r.parked, &vfC04Parked{seq: r.seq, kind: "cb", conns: []int{ci}, ch: ch, att: a, cb: cb, reply: reply, err: perr})
 				r.mu.Unlock()
 				return
 			case 4:
@@ -466,12 +594,23 @@ func vfC04Run(t *testing.T, cs vfC04Case, out *vfC04Out, isKnown func(string) bo
 		}
 
 		for i := 0; i < cs.NConns; i++ {
-			name := fmt.Sprintf("k%d", i)
-			connIdx[name] = i
-			conns[i] = w.NewConn(vfConnCfg{Name: name, User: userName(cs.Users[i]), Proto: cs.Protos[i]})
+			conns[i] = w.NewConn(vfConnCfg{Name: fmt.Sprintf("k%d", i), User: userName(cs.Users[i]), Proto: cs.Protos[i]})
 		}
 		for i := 0; i < cs.NConns; i++ {
 			conns[i].Connect(nil)
+		}
+		// close-aware parking: one watcher per connection (exits when the transport is closed, at the latest by w.Close)
+		for i := 0; i < cs.NConns; i++ {
+			i := i
+			go func() {
+				<-conns[i].T.closeCh
+				r.mu.Lock()
+				if !r.frozen[i] {
+					r.auto[i] = true
+					r.autoRel += r.releaseAllLocked(i)
+				}
+				r.mu.Unlock()
+			}()
 		}
 		vfSettle()
 
@@ -481,69 +620,25 @@ func vfC04Run(t *testing.T, cs vfC04Case, out *vfC04Out, isKnown func(string) bo
 			vfSettle()
 			settled = true
 		}
-		releaseOne := func(p *vfC04Parked) {
-			r.mu.Lock()
-			r.cbParked[p.conn][p.ch]--
-			r.mu.Unlock()
-			go func() {
-				defer p.att.done()
-				p.cb(p.reply, p.err)
-			}()
-		}
 		// Runs before w.Close (deferred later = runs earlier): nothing may stay parked when the node shuts down.
 		defer func() {
 			r.mu.Lock()
 			r.finalizing = true
-			ps := r.parked
-			r.parked = nil
+			r.releaseAllLocked(-1)
 			r.mu.Unlock()
-			for _, p := range ps {
-				releaseOne(p)
-			}
-			w.Gates.ReleaseAll()
 		}()
 
-		reservationOrSub := func(c, ch int) bool {
-			cl := conns[c].Client
-			cl.mu.RLock()
-			defer cl.mu.RUnlock()
-			_, ok := cl.channels[chName(ch)]
-			return ok && cl.status != statusClosed
-		}
-		subAttemptParked := func(c, ch int) bool {
+		isFrozen := func(c int) bool {
 			r.mu.Lock()
-			n := r.cbParked[c][ch]
-			busy := r.subBusy[c] > 0 && r.subCh[c] == ch
-			r.mu.Unlock()
-			if n > 0 || w.Gates.Waiting("p+:"+conns[c].Name+":"+chName(ch)) > 0 {
-				return true
-			}
-			return busy && w.Gates.Waiting("h:"+chName(ch)) > 0
+			defer r.mu.Unlock()
+			return r.frozen[c]
 		}
-		unsubParked := func(c, ch int) bool {
-			return w.Gates.Waiting("p-:"+conns[c].Name+":"+chName(ch)) > 0
-		}
-		// R1: at most one unfinished subscribe attempt per connection; a further subscribe on the SAME channel is let
-		// through only when it is certain to be rejected before it reserves anything (entry present, state settled).
-		allowSub := func(c, ch int) bool {
-			r.mu.Lock()
-			busy, bch := r.subBusy[c], r.subCh[c]
-			r.mu.Unlock()
-			if busy == 0 {
-				return true
-			}
-			if bch != ch {
-				return false
-			}
-			if !settled {
-				settle()
-			}
-			return reservationOrSub(c, ch)
-		}
+		subAttemptParked := func(c, ch int) bool { return r.parkedFor(c, ch, "cb", "p+", "h") }
+		unsubParked := func(c, ch int) bool { return r.parkedFor(c, ch, "p-") }
 		usersConns := func(u int) []int {
 			var cc []int
 			for i := 0; i < cs.NConns; i++ {
-				if cs.Users[i] == u {
+				if cs.Users[i] == u && !isFrozen(i) {
 					cc = append(cc, i)
 				}
 			}
@@ -551,10 +646,10 @@ func vfC04Run(t *testing.T, cs vfC04Case, out *vfC04Out, isKnown func(string) bo
 		}
 		armSub := func(c, ch int, s vfC04Step) {
 			if s.GateH && cs.ChPos[ch] {
-				w.Gates.Arm("h:"+chName(ch), 1)
+				r.arm("h:" + chName(ch))
 			}
 			if s.GateP && cs.ChPres[ch] {
-				w.Gates.Arm("p+:"+conns[c].Name+":"+chName(ch), 1)
+				r.arm("p+:" + conns[c].Name + ":" + chName(ch))
 			}
 			if s.FailH > 0 && cs.ChPos[ch] {
 				hmu.Lock()
@@ -569,12 +664,15 @@ func vfC04Run(t *testing.T, cs vfC04Case, out *vfC04Out, isKnown func(string) bo
 		}
 		armUnsub := func(c, ch int, s vfC04Step) {
 			if s.GateR && cs.ChPres[ch] {
-				w.Gates.Arm("p-:"+conns[c].Name+":"+chName(ch), 1)
+				r.arm("p-:" + conns[c].Name + ":" + chName(ch))
 			}
 		}
 		noteSubWindow := func(c, ch int) {
 			if unsubParked(c, ch) {
 				out.label("win_subscribe_while_unsubscribe_parked_before_hub_removal")
+			}
+			if subAttemptParked(c, ch) {
+				out.label("win_subscribe_while_subscribe_parked")
 			}
 		}
 		noteUnsubWindow := func(c, ch int) {
@@ -582,8 +680,18 @@ func vfC04Run(t *testing.T, cs vfC04Case, out *vfC04Out, isKnown func(string) bo
 				out.label("win_unsubscribe_while_subscribe_parked")
 			}
 		}
-		var timeouts, closeParked int
+
+		var timeouts int
 		var tmu sync.Mutex
+		timed := func(f func()) {
+			st := time.Now()
+			f()
+			if time.Since(st) >= 5*time.Second {
+				tmu.Lock()
+				timeouts++
+				tmu.Unlock()
+			}
+		}
 
 		// ---- oracle -----------------------------------------------------------------------------------------
 		type pairState struct {
@@ -656,7 +764,9 @@ func vfC04Run(t *testing.T, cs vfC04Case, out *vfC04Out, isKnown func(string) bo
 					return false
 				}
 			}
-			return len(w.Gates.AnyWaiting()) == 0
+			r.mu.Lock()
+			defer r.mu.Unlock()
+			return len(r.parked) == 0
 		}
 		markerN := 0
 		fullCheck := func(where string) string {
@@ -665,11 +775,19 @@ func vfC04Run(t *testing.T, cs vfC04Case, out *vfC04Out, isKnown func(string) bo
 					return m
 				}
 			}
+			subAt := make([][]bool, cs.NConns)
+			for c := 0; c < cs.NConns; c++ {
+				subAt[c] = make([]bool, cs.NChans)
+				for ch := 0; ch < cs.NChans; ch++ {
+					ps := readPair(c, ch)
+					subAt[c][ch] = ps.live && ps.sub
+				}
+			}
 			for ch := 0; ch < cs.NChans; ch++ {
 				name := chName(ch)
 				want := 0
 				for c := 0; c < cs.NConns; c++ {
-					if ps := readPair(c, ch); ps.live && ps.sub {
+					if subAt[c][ch] {
 						want++
 					}
 				}
@@ -679,16 +797,11 @@ func vfC04Run(t *testing.T, cs vfC04Case, out *vfC04Out, isKnown func(string) bo
 			}
 			// marker publications: one without offset (routed by the hub entry alone) and one with history (offset > 0,
 			// which additionally passes the client's subscribed-flag / position checks)
-			type mk struct{ ch int; data string }
-			var marks []mk
-			subAt := make([][]bool, cs.NConns)
-			for c := 0; c < cs.NConns; c++ {
-				subAt[c] = make([]bool, cs.NChans)
-				for ch := 0; ch < cs.NChans; ch++ {
-					ps := readPair(c, ch)
-					subAt[c][ch] = ps.live && ps.sub
-				}
+			type mk struct {
+				ch   int
+				data string
 			}
+			var marks []mk
 			for ch := 0; ch < cs.NChans; ch++ {
 				for k := 0; k < 2; k++ {
 					markerN++
@@ -736,38 +849,35 @@ func vfC04Run(t *testing.T, cs vfC04Case, out *vfC04Out, isKnown func(string) bo
 		// ---- schedule -----------------------------------------------------------------------------------------
 		for si, s := range cs.Steps {
 			chn := chName(s.Ch)
+			forceSettle := false
 			switch s.Kind {
 			case vfC04SubCmd:
 				c := s.Conn
-				if !allowSub(c, s.Ch) {
-					out.label("skipped_second_inflight_subscribe")
+				if isFrozen(c) {
 					continue
 				}
 				noteSubWindow(c, s.Ch)
 				armSub(c, s.Ch, s)
 				conn := conns[c]
 				r.start([]int{c}, s.Ch, true, s.Mode, func(a *vfC04Att) {
-					id := conn.NextID()
-					conn.Cmd(&protocol.Command{Id: id, Subscribe: &protocol.SubscribeRequest{Channel: chn, Data: []byte(fmt.Sprintf(`{"a":%d}`, a.idx))}})
+					conn.Cmd(&protocol.Command{Id: conn.NextID(), Subscribe: &protocol.SubscribeRequest{Channel: chn, Data: []byte(fmt.Sprintf(`{"a":%d}`, a.idx))}})
 				})
 			case vfC04UnsubCmd:
 				c := s.Conn
+				if isFrozen(c) {
+					continue
+				}
 				noteUnsubWindow(c, s.Ch)
 				armUnsub(c, s.Ch, s)
 				conn := conns[c]
 				r.start([]int{c}, s.Ch, false, 0, func(a *vfC04Att) {
-					st := time.Now()
-					conn.Cmd(&protocol.Command{Id: conn.NextID(), Unsubscribe: &protocol.UnsubscribeRequest{Channel: chn}})
-					if time.Since(st) >= 5*time.Second {
-						tmu.Lock()
-						timeouts++
-						tmu.Unlock()
-					}
+					timed(func() {
+						conn.Cmd(&protocol.Command{Id: conn.NextID(), Unsubscribe: &protocol.UnsubscribeRequest{Channel: chn}})
+					})
 				})
 			case vfC04ClientSub:
 				c := s.Conn
-				if !allowSub(c, s.Ch) {
-					out.label("skipped_second_inflight_subscribe")
+				if isFrozen(c) {
 					continue
 				}
 				noteSubWindow(c, s.Ch)
@@ -779,28 +889,18 @@ func vfC04Run(t *testing.T, cs vfC04Case, out *vfC04Out, isKnown func(string) bo
 				})
 			case vfC04ClientUnsub:
 				c := s.Conn
+				if isFrozen(c) {
+					continue
+				}
 				noteUnsubWindow(c, s.Ch)
 				armUnsub(c, s.Ch, s)
 				conn := conns[c]
 				r.start([]int{c}, s.Ch, false, 0, func(a *vfC04Att) {
-					st := time.Now()
-					conn.Client.Unsubscribe(chn)
-					if time.Since(st) >= 5*time.Second {
-						tmu.Lock()
-						timeouts++
-						tmu.Unlock()
-					}
+					timed(func() { conn.Client.Unsubscribe(chn) })
 				})
 			case vfC04NodeSub:
 				cc := usersConns(s.User)
-				ok := true
-				for _, c := range cc {
-					if !allowSub(c, s.Ch) {
-						ok = false
-					}
-				}
-				if !ok {
-					out.label("skipped_second_inflight_subscribe")
+				if len(cc) == 0 {
 					continue
 				}
 				for _, c := range cc {
@@ -814,19 +914,16 @@ func vfC04Run(t *testing.T, cs vfC04Case, out *vfC04Out, isKnown func(string) bo
 				})
 			case vfC04NodeUnsub:
 				cc := usersConns(s.User)
+				if len(cc) == 0 {
+					continue
+				}
 				for _, c := range cc {
 					noteUnsubWindow(c, s.Ch)
 					armUnsub(c, s.Ch, s)
 				}
 				u := userName(s.User)
 				r.start(cc, s.Ch, false, 0, func(a *vfC04Att) {
-					st := time.Now()
-					_ = w.node.Unsubscribe(u, chn)
-					if time.Since(st) >= 5*time.Second {
-						tmu.Lock()
-						timeouts++
-						tmu.Unlock()
-					}
+					timed(func() { _ = w.node.Unsubscribe(u, chn) })
 				})
 			case vfC04Disconnect, vfC04TransportClose:
 				c := s.Conn
@@ -840,10 +937,29 @@ func vfC04Run(t *testing.T, cs vfC04Case, out *vfC04Out, isKnown func(string) bo
 				for ch := 0; ch < cs.NChans; ch++ {
 					if subAttemptParked(c, ch) {
 						out.label("win_close_while_subscribe_parked")
-						closeParked++
 					}
 					if unsubParked(c, ch) {
 						out.label("win_close_while_unsubscribe_parked")
+					}
+				}
+				if s.Quiet {
+					// quiet close: exactly one unfinished operation on the connection, a parked subscribe attempt
+					// attributed to this connection alone
+					r.mu.Lock()
+					n := 0
+					for _, p := range r.parked {
+						if len(p.conns) == 1 && p.conns[0] == c && p.kind != "p-" {
+							n++
+						}
+					}
+					if n == 1 && r.opsBusy[c] == 1 {
+						r.frozen[c] = true
+					}
+					fr := r.frozen[c]
+					r.mu.Unlock()
+					if fr {
+						out.label("win_quiet_close_runs_into_its_own_wait_gate")
+						forceSettle = true
 					}
 				}
 				conn := conns[c]
@@ -859,36 +975,26 @@ func vfC04Run(t *testing.T, cs vfC04Case, out *vfC04Out, isKnown func(string) bo
 				r.mu.Lock()
 				np := len(r.parked)
 				r.mu.Unlock()
-				if np > 0 || len(w.Gates.AnyWaiting()) > 0 {
-					if s.AdvMs >= 5000 {
-						out.label("advanced_past_wait_gate_with_something_parked")
-					}
+				if np > 0 && s.AdvMs >= 5000 {
+					out.label("advanced_past_wait_gate_with_something_parked")
 				}
 				time.Sleep(time.Duration(s.AdvMs) * time.Millisecond)
 			case vfC04Release:
 				r.mu.Lock()
-				ncb := len(r.parked)
-				r.mu.Unlock()
-				gates := w.Gates.AnyWaiting()
-				total := ncb + len(gates)
-				if total == 0 {
+				if len(r.parked) == 0 {
+					r.mu.Unlock()
 					continue
 				}
-				i := s.Idx % total
-				if i < ncb {
-					r.mu.Lock()
-					p := r.parked[i]
-					r.parked = append(r.parked[:i:i], r.parked[i+1:]...)
-					r.mu.Unlock()
-					if conns[p.conn].Client.closing.Load() {
-						out.label("callback_released_after_close_started")
+				i := s.Idx % len(r.parked)
+				p := r.parked[i]
+				r.parked = append(r.parked[:i:i], r.parked[i+1:]...)
+				r.releaseLocked(p)
+				r.mu.Unlock()
+				out.label("released_" + p.kind)
+				for _, c := range p.conns {
+					if conns[c].Client.closing.Load() {
+						out.label("released_after_close_started")
 					}
-					releaseOne(p)
-					out.label("parked_callback_released")
-				} else {
-					g := gates[i-ncb]
-					w.Gates.Release(g)
-					out.label("gate_released_" + g[:2])
 				}
 			case vfC04Checkpoint:
 				settle()
@@ -899,7 +1005,7 @@ func vfC04Run(t *testing.T, cs vfC04Case, out *vfC04Out, isKnown func(string) bo
 					out.label("intermediate_full_check")
 				}
 			}
-			if s.NoSettle && s.Kind != vfC04Checkpoint {
+			if s.NoSettle && !forceSettle && s.Kind != vfC04Checkpoint {
 				settled = false
 				continue
 			}
@@ -921,13 +1027,8 @@ func vfC04Run(t *testing.T, cs vfC04Case, out *vfC04Out, isKnown func(string) bo
 		r.mu.Unlock()
 		for round := 0; round < 4; round++ {
 			r.mu.Lock()
-			ps := r.parked
-			r.parked = nil
+			r.releaseAllLocked(-1)
 			r.mu.Unlock()
-			for _, p := range ps {
-				releaseOne(p)
-			}
-			w.Gates.ReleaseAll()
 			vfSettle()
 			time.Sleep(6 * time.Second)
 			vfSettle()
@@ -935,8 +1036,9 @@ func vfC04Run(t *testing.T, cs vfC04Case, out *vfC04Out, isKnown func(string) bo
 		if !allIdle() {
 			r.mu.Lock()
 			busy := fmt.Sprint(r.opsBusy)
+			np := len(r.parked)
 			r.mu.Unlock()
-			return fmt.Sprintf("operations still in flight 24 s after everything was released (busy per connection %s, gates %v)", busy, w.Gates.AnyWaiting())
+			return fmt.Sprintf("operations still in flight 24 s after everything was released (busy per connection %s, parked %d)", busy, np)
 		}
 		if m := fullCheck("final settled point"); m != "" {
 			return m
@@ -945,6 +1047,7 @@ func vfC04Run(t *testing.T, cs vfC04Case, out *vfC04Out, isKnown func(string) bo
 		// ---- classification ------------------------------------------------------------------------------------
 		r.mu.Lock()
 		ov := r.overlaps
+		ar := r.autoRel
 		r.mu.Unlock()
 		if ov > 0 {
 			out.nontrivial = true
@@ -952,6 +1055,9 @@ func vfC04Run(t *testing.T, cs vfC04Case, out *vfC04Out, isKnown func(string) bo
 		}
 		if ov >= 3 {
 			out.label("overlaps>=3")
+		}
+		if ar > 0 {
+			out.label("parked_released_by_connection_close")
 		}
 		tmu.Lock()
 		if timeouts > 0 {
@@ -980,7 +1086,6 @@ func vfC04Run(t *testing.T, cs vfC04Case, out *vfC04Out, isKnown func(string) bo
 			out.label("final_some_connection_live")
 		}
 		_ = isKnown
-		_ = closeParked
 		return ""
 	})
 }
